@@ -181,7 +181,7 @@ def quantile_order(rep, f, rule, level_iv, sites_fn, prop_hint=''):
         continue
       good = iv.le(0.5 * scale) if kind.startswith('lower') else iv.ge(0.5 * scale)
       rep.check(good, rule, 'tails=%d: %s quantile argument %s in %r is on the right side of the median' % (tails, what, norm(ex), iv), f.qualname,
-                'tails=%d: %s quantile argument %s' % (tails, what, norm(ex)),
+                'tails=%d: %s quantile argument %s' % (tails, kind, norm(ex)),        # keyed by the side and the argument, not by the name of the column / local
                 'with tails=%d the %s is the quantile at `%s`, which ranges over %r for level in %r: for level < 0.5 it lies on the wrong side of the median, so lower <= estimate <= upper fails%s'
                 % (tails, what, norm(ex), iv, level_iv, prop_hint), f.loc(arg))
   return n_ob
